@@ -100,7 +100,7 @@ pub fn points<M: Model, R: Conv<M::F>>(ctx: &Ctx<M, R>, rep: &mut Report, rng: &
     rep.sample(&format!("c19/{}", ctx.name), || json!({"curve": ctx.name, "pool": pool.len(), "distinct_points": distinct.len()}));
 }
 
-pub fn toy<M: Model>(meta: &'static cfgs::toy_curves::ToyMeta, rep: &mut Report, rng: &mut Rng) {
+pub fn toy<M: Model>(meta: &'static ToyDesc, rep: &mut Report, rng: &mut Rng) {
     let ctx = toy_ctx::<M>(meta);
     rep.config(&format!("toy::{}", meta.name));
     let pts = if ctx.complete { ctx.points.clone() } else { ctx.subgroup.clone() };
@@ -236,7 +236,7 @@ pub fn items(args: &Args) -> Vec<Item> {
     let mut v: Vec<Item> = vec![];
     macro_rules! toy_sw {
         ($name:literal, $cfg:ty) => {
-            let meta = cfgs::toy_curves::TOY_CURVES.iter().find(|m| m.name == $name).unwrap();
+            let meta = crate::model::toy_desc($name);
             v.push(Item::new(format!("c19/toy::{}", $name), move |rep, rng, _| {
                 rep.require("pool: non-canonical identity");
                 rep.require("pair: same point, different representatives");
@@ -247,7 +247,7 @@ pub fn items(args: &Args) -> Vec<Item> {
     }
     macro_rules! toy_te {
         ($name:literal, $cfg:ty) => {
-            let meta = cfgs::toy_curves::TOY_CURVES.iter().find(|m| m.name == $name).unwrap();
+            let meta = crate::model::toy_desc($name);
             v.push(Item::new(format!("c19/toy::{}", $name), move |rep, rng, _| toy::<TEm<$cfg>>(meta, rep, rng)));
         };
     }
@@ -265,6 +265,7 @@ pub fn items(args: &Args) -> Vec<Item> {
     crate::curves::for_each_shipped_sw!(sw);
     crate::curves::for_each_shipped_te!(te);
     cfgs::for_each_toy_sw!(toy_sw);
+    cfgs::for_each_toy_sw3!(toy_sw);
     cfgs::for_each_toy_te!(toy_te);
     let gn = args.pick(2usize, 16);
     v.push(Item::new("c19/gt/bls12_381", move |rep, rng, _| {
